@@ -10,7 +10,7 @@ META = {
         "text": "Kernel-checked: for every layout of a log (message formats 0/1/2, any batch boundaries, compressed batches and wrappers, compaction holes at head/inside/tail, retained empty batches in any number, batches beginning before the start offset), every byte cut and every start offset, one fetch round delivers exactly the completely contained records at or above the start offset, in order, each once, never panics/desynchronises, never jumps over a stored record — stated for the token machine, for the statement-level model of message_reader.go/batch.go (pull parser, pull_eq_run) and about bytes (tokenize_items). Under the fetch contract the position strictly advances; iterating against any contract-obeying answers delivers the log from the start offset gap-free and duplicate-free. The Reader's reconnect/backoff loop is a total LTS; with the read outcomes computed (broker under the fetch contract, connections lost at any byte, deadlines, cancellation; decoder as written) it pushes exactly the stored records from the resolved start offset, each once, in order (reader_end_to_end), cannot starve (reader_no_starvation), and is the fetcher the front model assumes (reader_loop_is_fetcher). The whole Reader (front with version tags + one loop per fetcher + world): after SetOffset(o) FetchMessage returns take n (feed log o) for every interleaving (reader_delivers); sequential API spec with Offset(), SetOffset's no-op rule and the lazy start (reader_api). The models are tied to the code by running both on the same generated layouts/cuts/offsets (byte level through Conn.ReadBatch for fetch v2/v5/v10), scripted Reader runs, hook traces of the loop and the front replayed through the LTSs, and go/ast facts incl. the normalised text of readMessage/readMessageV1/markRead/unwindStack.",
         "design_ref": "DESIGN.md §7 C02",
     },
-    "level_note": "Proved in general: single_fetch / fetch_progress / iterated_fetch (all message formats, any cut/offset/budgets; `Safe` = no v0/v1 message skipped right before a v2 batch, implied by the fetch contract); bytes↔tokens for everything the Spec encoder can emit, truncated anywhere (codec as a parameter with dec∘enc = id); pull parser = token machine on every token stream unless the latter reports desync; loop/world/front/system theorems over every event sequence. Structural facts of the decoder and loop source are re-extracted by go/ast on every run (Gen/DecoderFacts.lean, after a normalisation pass that makes extract-method refactorings, local renames and clause reorderings invisible) and compared by theorems. Trusted: Lean kernel; propext/Classical.choice/Quot.sound; that the Lean models transcribe the Go text (sampled: driver cases, rtrace/ftrace replays, pullfuzz, tok; pinned by the go/ast facts); the fetch contract (first batch whole, KIP-74) and Env.ok (a reported first offset is not above a stored record) as hypotheses; codecs/net modelled not verified, bufio only where control flow depends on it (readVarInt's refill loop: varint_refill); deadlines and cancellation are environment events; the consumer-group mode is outside the statement; LastOffset means the log end the broker reports at the first successful initialize.",
+    "level_note": "Proved in general: single_fetch / fetch_progress / iterated_fetch (all message formats, any cut/offset/budgets; `Safe` = no v0/v1 message skipped right before a v2 batch, implied by the fetch contract); bytes↔tokens for everything the Spec encoder can emit, truncated anywhere (codec as a parameter with dec∘enc = id), and for uncompressed v2/v1/v0 layouts as a theorem about the byte-level Go reads strung together (walk_bytes, single_fetch_walk; header_bytes/record_bytes/message_bytes/wrapper_bytes per item, reads_within_remain: no read looks beyond the set, varint_refill: independent of how the network cuts the stream); pull parser = token machine on every token stream unless the latter reports desync; loop/world/front/system theorems over every event sequence. Structural facts of the decoder and loop source are re-extracted by go/ast on every run (Gen/DecoderFacts.lean, after a normalisation pass that makes extract-method refactorings, local renames and clause reorderings invisible) and compared by theorems. Trusted: Lean kernel; propext/Classical.choice/Quot.sound; that the Lean models transcribe the Go text (sampled: driver cases, rtrace/ftrace replays, pullfuzz, tok; pinned by the go/ast facts); the fetch contract (first batch whole, KIP-74) and Env.ok (a reported first offset is not above a stored record) as hypotheses; codecs/net modelled not verified, bufio only where control flow depends on it (readVarInt's refill loop: varint_refill); deadlines and cancellation are environment events; the consumer-group mode is outside the statement; LastOffset means the log end the broker reports at the first successful initialize.",
 }
 
 MODULE = "KafkaVerif.Props.C02"
@@ -48,7 +48,7 @@ def run(ctx):
         dis = ctx.correspond(lines, orc, "conn.go ReadBatch / batch.go / message_reader.go / reader.go ↔ Model/MessageSetReader.lean, Model/Batch.lean, Model/ReaderLoop.lean",
                              nontrivial=lambda op, impl: " L=-" not in op)
     ctx.coverage["rule"] = (
-        "fetch … chunk=<n>: the response frame reaches the client in pieces of n bytes (54 quick / ~450 thorough; n in 1,2,3,5,16,rand; multi-byte varints; same expected result; then a ReadLastOffset on the same Conn must work after a clean round); every reader scenario ends with Reader.Close and `all connections the fetch loop opened are over`; oore: ReaderConfig.OffsetOutOfRangeError on/off with a start beyond the log end, through the loop LTS; unkcodec: a v2 batch with compression codec 5-7 (errUnknownCodec branch of the loop: 4 errors, nothing delivered, no connection left behind); reader … faults=i:err1h: OffsetOutOfRange, then the ListOffsets on that connection is never answered (the reader comes back after its 10 s deadline); tok: the driver's real bytes (uncompressed layouts, random cut) through the Lean byte tokenizer and through the byte-level readers (readHeaderB, readRecordV2, readBodyV1); rtrace / ftrace: RL.* / RF.* hook traces of every Reader scenario replayed through the loop LTS / checked against the front model; fetchx: the fetch generator read after the batch's adjusted deadline has passed (58 cases quick / 318 thorough; out must be RequestTimedOut); fetchts: stored timestamp 0 (D21); fetch: logs of 1..6 original batches in format 2 / 1 / 0 / mixed(1 then 2), compaction modes keep-all, random holes, head holes, tail holes, "
+        "fetch … chunk=<n>: the response frame reaches the client in pieces of n bytes (54 quick / ~450 thorough; n in 1,2,3,5,16,rand; multi-byte varints; same expected result; then a ReadLastOffset on the same Conn must work after a clean round); the fake is a cluster (broker k at fake:9092+k-1; partition requests on a connection dialled to a non-leader address get NotLeaderForPartition; `move` faults move the leadership to another address); fault `stall<k>`: the frame stops after k bytes and the connection stays open and silent; an error handed to the application fails the monitor; every reader scenario ends with Reader.Close and `all connections the fetch loop opened are over`; oore: ReaderConfig.OffsetOutOfRangeError on/off with a start beyond the log end, through the loop LTS; unkcodec: a v2 batch with compression codec 5-7 (errUnknownCodec branch of the loop: 4 errors, nothing delivered, no connection left behind); reader … faults=i:err1h: OffsetOutOfRange, then the ListOffsets on that connection is never answered (the reader comes back after its 10 s deadline); tok: the driver's real bytes (uncompressed layouts, random cut) through the Lean byte tokenizer and through the byte-level readers (readHeaderB, readRecordV2, readBodyV1); rtrace / ftrace: RL.* / RF.* hook traces of every Reader scenario replayed through the loop LTS / checked against the front model; fetchx: the fetch generator read after the batch's adjusted deadline has passed (58 cases quick / 318 thorough; out must be RequestTimedOut); fetchts: stored timestamp 0 (D21); fetch: logs of 1..6 original batches in format 2 / 1 / 0 / mixed(1 then 2), compaction modes keep-all, random holes, head holes, tail holes, "
         "empty (retained bare header, sometimes dropped), whole-batch gaps, codecs none/gzip/snappy/lz4/zstd (v2) and gzip/snappy/lz4 wrappers (v0/v1; one in three with a key of 0-8 bytes, C05-D31), start offset anywhere "
         "in the log incl. the log end, served from the batch containing it (3/4) or from the log start, cut: none / uniform byte / within the last 70 bytes; fetch v2/v5/v10 round robin; "
         "iter: the same logs served under the fetch contract with 1..3 cycling byte budgets from {1,80,150,300,1000,2^20}+rand; "
